@@ -505,8 +505,10 @@ def check_driver(ctx, pstate, table):
                                 mc[1] in ('append', 'extend', 'pop',
                                           'insert', 'clear'):
                             shapes[self_attr(mc[0])].append(('m:' + mc[1], s))
-                    elif isinstance(s, ast.Assign):
-                        for t in s.targets:
+                    elif isinstance(s, (ast.Assign, ast.AnnAssign)) and \
+                            getattr(s, 'value', None) is not None:
+                        for t in (s.targets if isinstance(s, ast.Assign)
+                                  else [s.target]):
                             if self_attr(t) in shapes:
                                 shapes[self_attr(t)].append(('rebind', s))
                             elif isinstance(t, ast.Subscript) and self_attr(
